@@ -21,10 +21,11 @@ const (
 	srcBufio              // *bufio.Reader (16-byte buffer) over a PlainReader: ByteReader, Peek/Discard
 	srcStutter            // Read only; every other call answers (0, nil) before handing out data
 	srcEOFLast            // Read only; reports io.EOF together with the final bytes of the stream
+	srcLimited            // *io.LimitedReader over a *bytes.Reader that holds three more bytes behind the limit
 	nSrc
 )
 
-var srcNames = [nSrc]string{"bytereader", "plain", "bytes.Buffer", "bufio.Reader", "plain-zero-reads", "plain-eof-with-last-byte"}
+var srcNames = [nSrc]string{"bytereader", "plain", "bytes.Buffer", "bufio.Reader", "plain-zero-reads", "plain-eof-with-last-byte", "io.LimitedReader"}
 
 func srcIndex(name string) int {
 	for i, n := range srcNames {
@@ -96,6 +97,11 @@ type sources struct {
 	bio *bufio.Reader
 	sr  stutterReader
 	er  eofReader
+
+	// srcLimited: the stream followed by three guard bytes in lbuf, lbr over all of it, lr fencing it at len(stream)
+	lbuf []byte
+	lbr  bytes.Reader
+	lr   io.LimitedReader
 }
 
 // open points source kind src at stream and returns the reader to hand to go-mc.
@@ -125,6 +131,11 @@ func (s *sources) open(src int, stream []byte) io.Reader {
 	case srcEOFLast:
 		s.er = eofReader{data: stream}
 		return &s.er
+	case srcLimited:
+		s.lbuf = append(append(s.lbuf[:0], stream...), 0x01, 0x02, 0x03)
+		s.lbr.Reset(s.lbuf)
+		s.lr = io.LimitedReader{R: &s.lbr, N: int64(len(stream))}
+		return &s.lr
 	}
 	panic("bad source kind")
 }
@@ -145,6 +156,8 @@ func (s *sources) consumed(src int, stream []byte) int {
 		return s.sr.pos
 	case srcEOFLast:
 		return s.er.pos
+	case srcLimited:
+		return len(s.lbuf) - s.lbr.Len() // counts guard bytes taken from behind the limit too
 	}
 	panic("bad source kind")
 }
